@@ -77,15 +77,20 @@ def output_important(node: CSSProperty, out: OutputStream, separator=False):
 
 def output_value(value: CSSValue, out: OutputStream, config: Config):
     prev_end = -1
+    prev = None
     for i, token in enumerate(value.value):
-        # Handle edge case: a field is written close to previous token like this: `foo${bar}`.
+        # Handle edge case: a field is written close to previous token like this: `foo${bar}`,
+        # or a token is written close to previous field: `${bar}foo`.
         # We should not add delimiter here
+        start = getattr(token, 'start', None)
+        after_field = isinstance(prev, tokens.Field) and start is not None and start == prev_end
 
-        if i != 0 and (not isinstance(token, tokens.Field) or token.start != prev_end):
+        if i != 0 and (not isinstance(token, tokens.Field) or token.start != prev_end) and not after_field:
             out.push(' ')
 
         output_token(token, out, config)
         prev_end = token.end if hasattr(token, 'end') else -1
+        prev = token
 
 def output_token(token, out: OutputStream, config: Config):
     if isinstance(token, tokens.ColorValue):
